@@ -266,10 +266,19 @@ func IsBoolNode(n Node) bool {
 //@ ensures [C02] name: outFirst() == any(n.name.String())
 //@ atcall writeTo assert [C02] chain: arg_recv == n.next ==> arg_inKey && arg_withParens
 
+// quote is strconv.Quote with the two escapes the lexer does not read rewritten;
+// that what it writes is read back as s is decided by the bounded check
+// print-reparse, not here
+//@ func quote
+//@ props C02
+//@ pure
+//@ loop 1 invariant [C04] in-bounds: i >= 0
+//@ ensures [C02] plain-unchanged: !strings.Contains(uninterp[string]("ext_strconv_Quote_r0", s), "\\a") && !strings.Contains(uninterp[string]("ext_strconv_Quote_r0", s), "\\U") ==> r0 == uninterp[string]("ext_strconv_Quote_r0", s)
+
 //@ func (*quotedString).writeTo
 //@ props C02
 //@ modifies *buf
-//@ ensures [C02] quoted: outFirst() == any(uninterp[string]("ext_strconv_Quote_r0", n.str))
+//@ ensures [C02] quoted: outFirst() == any(quote(n.str))
 //@ atcall writeTo assert [C02] chain: arg_recv == n.next ==> arg_inKey && arg_withParens
 
 //@ func (*VariableNode).writeTo
@@ -291,7 +300,7 @@ func IsBoolNode(n Node) bool {
 //@ modifies *buf
 //@ atcall writeTo assert [C02] operand-parens: arg_recv == n.operand ==> !arg_inKey && arg_withParens == (n.operand.priority() <= n.priority())
 //@ atcall writeTo assert [C02] chain: arg_recv == n.next && arg_recv != n.operand ==> arg_inKey && arg_withParens
-//@ atcall Fprintf assert [C02 C03] pattern-quoted-readably: (arg_format == " like_regex %q%v" || arg_format == " like_regex %q%s") && len(arg_a) == 2 && arg_a[0] == any(n.pattern) && arg_a[1] == any(n.flags)
+//@ atcall Fprintf assert [C02 C03] pattern-quoted-readably: (arg_format == " like_regex %v%v" || arg_format == " like_regex %s%v" || arg_format == " like_regex %v%s" || arg_format == " like_regex %s%s") && len(arg_a) == 2 && arg_a[0] == any(quote(n.pattern)) && arg_a[1] == any(n.flags)
 //@ ensures [C02] open-when-asked: withParens ==> outFirst() == any(rune('('))
 //@ ensures [C02] own-parens-with-chain: n.next != nil ==> outFirst() == any(rune('('))
 
